@@ -15,9 +15,9 @@ HARNESSES = [
                      'accepted VBK header: links, height, chainWork == parent + proof, best chain has the most work'],
      'rungs': {'quick': [{'defines': ['NCH=5'], 'bound': 'valid VBK chain of 5 blocks (symbolic timestamps, last block may fork anywhere), header on any block with symbolic keystone mutations (2x8 bits), 4 timestamp choices around the limits, difficulty/parent/PoW mutations', 'timeout': 250}],
                'thorough': [{'defines': ['NCH=8'], 'bound': 'chain of 8 blocks, otherwise as quick', 'timeout': 2400}]}},
-    {'name': 'h_retarget', 'src': 'C15/h_retarget.cpp', 'entry': 'h_retarget', 'repo_srcs': srcsets_tree.BTC_TREE, 'covers': [1, 2, 3, 4, 5], 'jobs': 8,
-     'obligations': ['BTC retarget at an interval boundary: getNextWorkRequired == old target * clamp(actual timespan, T/4, 4T) / T capped at the pow limit, in compact form (independent 256-bit reference); a header with that difficulty is accepted, any other refused; inside the interval the difficulty is unchanged, or follows the min-difficulty rule (pow-limit bits after a gap > 2 spacings, otherwise the last non-minimum difficulty) when the chain allows it'],
-     'rungs': {'quick': [{'bound': 'interval 4 (timespan 40 s, spacing 10 s), pow limit lowered to the target of 0x1f7fffff so that the cap is reachable without the 256-bit product wrapping, three starting difficulties, min-difficulty rule on/off, block spacings 0..60 s in steps of 10 (case split: 2058 patterns)', 'timeout': 250}],
+    {'name': 'h_retarget', 'src': 'C15/h_retarget.cpp', 'entry': 'h_retarget', 'repo_srcs': srcsets_tree.BTC_TREE, 'covers': [1, 2, 3, 4, 5, 6], 'jobs': 16,
+     'obligations': ['BTC retarget at an interval boundary: getNextWorkRequired == old target * clamp(actual timespan, T/4, 4T) / T capped at the pow limit, in compact form (independent 256-bit reference); a header with that difficulty is accepted, any other refused; inside the interval and in the first block after the boundary the difficulty is unchanged, or follows the min-difficulty rule (pow-limit bits after a gap > 2 spacings, otherwise the last non-minimum difficulty) when the chain allows it'],
+     'rungs': {'quick': [{'bound': 'interval 4 (timespan 40 s, spacing 10 s), pow limit lowered to the target of 0x1f7fffff so that the cap is reachable without the 256-bit product wrapping, three starting difficulties, min-difficulty rule on/off, block spacings 0..60 s in steps of 10, first block of the next period 0..30 s later (case split: 8232 patterns)', 'timeout': 250}],
                'thorough': [{'bound': 'as quick', 'timeout': 600}]}},
 ]
 EXPLANATION = 'Header acceptance of the real BTC tree is compared on every path with an independent implementation of the contextual rules written over plain integers.'
